@@ -237,6 +237,13 @@ func (g *G) Valid(t *spec.Type, v *spec.Val, loc Loc, depth int) any {
 		if m.MaxLen != nil && n > *m.MaxLen {
 			n = *m.MaxLen
 		}
+		if depth > 4 {
+			// recursion through map values must end: smallest map allowed
+			n = 0
+			if m.MinLen != nil {
+				n = *m.MinLen
+			}
+		}
 		mm := map[string]any{}
 		for tries := 0; len(mm) < n && tries < 40; tries++ {
 			k := g.Valid(rt.Key.Type, rt.Key.Val, Body, depth+1)
